@@ -274,7 +274,7 @@ class TrimeshBoundary(BoundaryDomain):
         points, params, device = self._transform_input_for_normals(
             points, params, device
         )
-        points = points.as_tensor.detach().cpu()
+        points = points[:, list(self.space.keys())].as_tensor.detach().cpu()
         index = self.domain.mesh.nearest.on_surface(points)[2]
         mesh_normals = torch.tensor(self.domain.mesh.face_normals, device=device)
         normals = torch.zeros((len(points), 3), device=device)
